@@ -178,8 +178,8 @@ theorem handleModeLine_bq {cfg : Cfg} {m m' : M} {l : L} {b : Bool}
     · split at e <;> (cases e; exact Or.inl rfl)
     · cases e; exact BQ.refl m
 
-theorem handleAdditionalCases_bq {cfg : Cfg} {m m' : M} {l : L} {b : Bool} {to : State}
-    (hto : isHunkBody to = false) (e : handleAdditionalCases cfg m l to = .ok (b, m')) : BQ m m' := by
+theorem handleAdditionalCases_bq {cfg : Cfg} {m0 m m' : M} {l : L} {b : Bool} {to : State}
+    (hto : isHunkBody to = false) (e : handleAdditionalCases cfg m l to = .ok (b, m')) : BQ m0 m' := by
   unfold handleAdditionalCases at e
   split at e
   · cases e; exact Or.inl (by simpa using hto)
